@@ -300,6 +300,75 @@ fn c16_units(tier: Tier) -> Vec<Unit> {
             *ctx.st.notes.entry(format!("graph depth at frontier exhaustion (port {:X})", p)).or_insert(0) += maxdepth as u64;
         }));
     }
+    // ---- per port: every byte value (the sequence units use a 4-value covering alphabet)
+    for p in 1..=11u8 {
+        let dom = format!("port {:X}: (a) from each of the 512 states reached by (write DDR d, write DR l, pins x) with d, l, x in {:02x?}, every action over {{write DDR, write DR, external pins}} x ALL 256 values; (b) from reset every ordered pair of actions x ALL 256 x 256 values", p, VP8);
+        units.push(Unit::new(&format!("port{:X}/all-values", p), 8, &dom, move |ctx, chunk| {
+            let mut sys = PortSys::new();
+            let all: Vec<PAct> = (0..=255u8).flat_map(|v| [PAct::Ddr(p, v), PAct::Dr(p, v), PAct::Pins(p, v)]).collect();
+            // (a)
+            let d0 = VP8[chunk as usize];
+            for &l0 in VP8.iter() {
+                for &x0 in VP8.iter() {
+                    let reset = sys.snapshot();
+                    let mut path = vec![PAct::Ddr(p, d0), PAct::Dr(p, l0), PAct::Pins(p, x0)];
+                    let mut ok = true;
+                    for a in path.clone().iter() {
+                        if let Err(m) = sys.apply(a, &[p]) {
+                            report(ctx, &path, m);
+                            ok = false;
+                            break;
+                        }
+                    }
+                    if ok {
+                        let base = sys.snapshot();
+                        for a in all.iter() {
+                            ctx.st.cases += 1;
+                            ctx.st.nontrivial += 1;
+                            path.push(*a);
+                            if let Err(m) = sys.apply(a, &[p]) {
+                                report(ctx, &path, m);
+                            }
+                            path.pop();
+                            sys.restore(&base);
+                            if ctx.stop {
+                                return;
+                            }
+                        }
+                    }
+                    sys.restore(&reset);
+                }
+            }
+            // (b) pairs from reset; the first action's value is split over the chunks
+            let reset = sys.snapshot();
+            for (i, a1) in all.iter().enumerate() {
+                if i % 8 != chunk as usize {
+                    continue;
+                }
+                let mut path = vec![*a1];
+                if let Err(m) = sys.apply(a1, &[p]) {
+                    report(ctx, &path, m);
+                    sys.restore(&reset);
+                    continue;
+                }
+                let base = sys.snapshot();
+                for a2 in all.iter() {
+                    ctx.st.cases += 1;
+                    ctx.st.nontrivial += 1;
+                    path.push(*a2);
+                    if let Err(m) = sys.apply(a2, &[p]) {
+                        report(ctx, &path, m);
+                    }
+                    path.pop();
+                    sys.restore(&base);
+                    if ctx.stop {
+                        return;
+                    }
+                }
+                sys.restore(&reset);
+            }
+        }));
+    }
     // ---- pairs of ports: all sequences to depth 4 (5 thorough) over both ports
     let mut pairs = Vec::new();
     for a in 1..=11u8 {
